@@ -320,7 +320,10 @@ def reduce_axis(an, a, axis, extra=None, intres=False, boolres=False):
     if t.kind == 'win':
         if axis in (1, -1):
             w = t.cols
-            return an.new_arr(ArrT(t.len, ladd(t.lag, w - 1) if t.lag is not None else None, lmax(t.base, el)))
+            lag = ladd(t.lag, w - 1) if t.lag is not None else None
+            if t.rowlag is not None:
+                lag = lmax(lag, t.rowlag) if lag is not None else t.rowlag
+            return an.new_arr(ArrT(t.len, lag, lmax(t.base, el)))
         raise Unsupported('reduction of windows along axis ' + str(axis))
     if t.kind == '2d':
         if axis in (1, -1):
@@ -333,7 +336,10 @@ def np_dot(an, a, b):
     if isinstance(a, ArrRef) and isinstance(b, ArrRef):
         ta, tb = an.T(a), an.T(b)
         if ta.kind == 'win' and tb.kind == '1d' and tb.lag is None:
-            return an.new_arr(ArrT(ta.len, ladd(ta.lag, ta.cols - 1) if ta.lag is not None else None, lmax(ta.base, tb.base)))
+            lag = ladd(ta.lag, ta.cols - 1) if ta.lag is not None else None
+            if ta.rowlag is not None:
+                lag = lmax(lag, ta.rowlag) if lag is not None else ta.rowlag
+            return an.new_arr(ArrT(ta.len, lag, lmax(ta.base, tb.base)))
         if ta.kind == '1d' and tb.kind == '1d':
             la = reduce_axis(an, a, None)
             lb = reduce_axis(an, b, None)
